@@ -367,6 +367,31 @@ class Run(object):
                     res.remove(victim)
                     rl.remove(victim)
                 self.derived = (self.derived + [(res, rl, name)])[-3:]
+        elif name == 'clone':
+            # a second IndexedSet made from this one while it carries tombstones (constructor, update() or |= of an empty
+            # set): equal now, and independent from now on - the clone is edited next to where self has its holes and
+            # kept; both are re-read after later steps (check_derived for the clone, the read-out for self)
+            how = op[1]
+            if how == 'ctor':
+                t = su.IndexedSet(s)
+            elif how == 'update-empty':
+                t = su.IndexedSet()
+                t.update(s)
+            else:
+                t = su.IndexedSet()
+                t |= s
+            tl = list(L)
+            if list(t) != tl or len(t) != len(tl):
+                self.fail('result[clone]', 'IndexedSet made from self (%s) iterates as %s, self as %s' % (how, trim(list(t)), trim(tl)))
+            for frac in (0.4, 0.6):
+                if tl:
+                    victim = tl[min(len(tl) - 1, int(len(tl) * frac))]
+                    t.remove(victim)
+                    tl.remove(victim)
+            self.derived = (self.derived + [(t, tl, 'clone:' + how)])[-3:]
+            if st is not None:
+                st.monitor_evals += 1
+                st.count('clones_kept_and_edited')
         elif name == 'subset-with-holes':
             # an IndexedSet operand that IS a subset of self and carries a tombstone of its own (a filler inserted in
             # its middle and discarded again; it survives un-compacted when the operand has 8 items and more)
@@ -479,6 +504,8 @@ class Check(object):
             m = r.choice(['or', 'and', 'sub', 'xor', 'ror', 'rand', 'rxor', 'rsub'])
             allow = ('set', 'frozenset', 'iset') if m in ('or', 'and', 'sub', 'xor') else ('set', 'frozenset')
             return [m, [self.operand(r, pool, allow)]]
+        if r.random() < 0.2:
+            return ['clone', r.choice(['ctor', 'update-empty', 'ior-empty'])]
         if r.random() < 0.3:
             return ['subset-with-holes', r.choice([1.0, 1.0, 0.5, 0.9]), r.choice(['head', 'tail'])]
         return [r.choice(['issubset', 'issuperset', 'isdisjoint']), self.operand(r, pool)]
